@@ -46,6 +46,35 @@ def evaluate(line: str) -> str:
     return f(*parts[1:])
 
 
+def mkfile(comments=None, comps=None):
+    """a Bf3File the way callers build one: arguments that are empty are left to the constructor's defaults"""
+    from bec2format.bf3file import Bf3File
+    if not comments and not comps:
+        return Bf3File()
+    if not comments:
+        return Bf3File(components=comps)
+    if not comps:
+        return Bf3File(comments)
+    return Bf3File(comments, comps)
+
+
+def pristine_problem():
+    """objects built with the constructors' defaults, after everything this process has evaluated: still as new?"""
+    from bec2format.bf3file import Bf3File
+    from bec2format.bec2file import Bec2File
+    try:
+        f, b = Bf3File(), Bec2File(Bf3File())
+    except Exception as e:
+        return f"building Bf3File() / Bec2File(Bf3File()) raises {type(e).__name__}: {e}"
+    if f.comments or f.components:
+        return f"a new Bf3File() has comments {dict(f.comments)!r:.100} and {len(f.components)} components"
+    if b.auth_blocks or b.bf3file.comments or b.bf3file.components:
+        return f"a new Bec2File(Bf3File()) has {len(b.auth_blocks)} auth blocks / comments {dict(b.bf3file.comments)!r:.100}"
+    if len(b.session_key) != 16:
+        return "a new Bec2File(Bf3File()) has no 16-byte session key"
+    return None
+
+
 # op modules register themselves
 import impl_crc  # noqa: E402,F401
 import impl_bf3  # noqa: E402,F401
